@@ -78,48 +78,61 @@ def rcode (d : Int) : Cls → RSt
   | .tilde => ⟨.tilde, d⟩
   | _ => ⟨.code, d⟩
 
+def rSlash (d : Int) : Cls → RSt
+  | .slash => ⟨.lineCom, d⟩
+  | .star => ⟨.blockCom, d⟩
+  | c => rcode d c                 -- the '/' was the division operator
+
+def rHash (d : Int) : Cls → RSt
+  | .bang => ⟨.lineCom, d⟩
+  | c => rcode d c                 -- the '#' was a token of its own
+
+def rTilde (d : Int) : Cls → RSt
+  | .quote | .dquote | .bquote | .comma => ⟨.code, d⟩   -- ~' ~" ~` ~,
+  | c => rcode d c
+
+/-- inside "..." (q = the closing quote class) or '...' -/
+def rQuoted (inside esc : Lex) (q : Cls) (d : Int) (c : Cls) : RSt :=
+  if c = .bslash then ⟨esc, d⟩
+  else if c = q then ⟨.code, d⟩
+  else if c = .nl then ⟨.bad, d⟩
+  else ⟨inside, d⟩
+
+def rEsc (inside : Lex) (d : Int) : Cls → RSt
+  | .nl => ⟨.bad, d⟩
+  | _ => ⟨inside, d⟩
+
+def rRaw (d : Int) : Cls → RSt
+  | .bquote => ⟨.code, d⟩
+  | _ => ⟨.raw, d⟩
+
+def rLineCom (d : Int) : Cls → RSt
+  | .nl => ⟨.code, d⟩
+  | _ => ⟨.lineCom, d⟩
+
+def rBlockCom (d : Int) : Cls → RSt
+  | .star => ⟨.blockStar, d⟩
+  | _ => ⟨.blockCom, d⟩
+
+def rBlockStar (d : Int) : Cls → RSt
+  | .slash => ⟨.code, d⟩
+  | .star => ⟨.blockStar, d⟩
+  | _ => ⟨.blockCom, d⟩
+
 def rstepC (r : RSt) (c : Cls) : RSt :=
   match r.lex with
   | .code => rcode r.depth c
-  | .slash => match c with
-    | .slash => ⟨.lineCom, r.depth⟩
-    | .star => ⟨.blockCom, r.depth⟩
-    | _ => rcode r.depth c           -- the '/' was the division operator
-  | .hash => match c with
-    | .bang => ⟨.lineCom, r.depth⟩
-    | _ => rcode r.depth c           -- the '#' was a token of its own
-  | .tilde => match c with
-    | .quote | .dquote | .bquote | .comma => ⟨.code, r.depth⟩   -- ~' ~" ~` ~,
-    | _ => rcode r.depth c
-  | .str => match c with
-    | .bslash => ⟨.strEsc, r.depth⟩
-    | .dquote => ⟨.code, r.depth⟩
-    | .nl => ⟨.bad, r.depth⟩
-    | _ => r
-  | .strEsc => match c with
-    | .nl => ⟨.bad, r.depth⟩
-    | _ => ⟨.str, r.depth⟩
-  | .rune => match c with
-    | .bslash => ⟨.runeEsc, r.depth⟩
-    | .quote => ⟨.code, r.depth⟩
-    | .nl => ⟨.bad, r.depth⟩
-    | _ => r
-  | .runeEsc => match c with
-    | .nl => ⟨.bad, r.depth⟩
-    | _ => ⟨.rune, r.depth⟩
-  | .raw => match c with
-    | .bquote => ⟨.code, r.depth⟩
-    | _ => r
-  | .lineCom => match c with
-    | .nl => ⟨.code, r.depth⟩
-    | _ => r
-  | .blockCom => match c with
-    | .star => ⟨.blockStar, r.depth⟩
-    | _ => r
-  | .blockStar => match c with
-    | .slash => ⟨.code, r.depth⟩
-    | .star => r
-    | _ => ⟨.blockCom, r.depth⟩
+  | .slash => rSlash r.depth c
+  | .hash => rHash r.depth c
+  | .tilde => rTilde r.depth c
+  | .str => rQuoted .str .strEsc .dquote r.depth c
+  | .strEsc => rEsc .str r.depth c
+  | .rune => rQuoted .rune .runeEsc .quote r.depth c
+  | .runeEsc => rEsc .rune r.depth c
+  | .raw => rRaw r.depth c
+  | .lineCom => rLineCom r.depth c
+  | .blockCom => rBlockCom r.depth c
+  | .blockStar => rBlockStar r.depth c
   | .bad => r
 
 def rstep (r : RSt) (ch : UInt8) : RSt := rstepC r (classify ch)
